@@ -46,15 +46,19 @@ def run_raire(case, earlier_search=False, agap=0):
     cvrs = si.raire_cvrs(case)
     # the reported winner is the function's `winner` argument; the Contest object may carry another (e.g. stale) value
     attr_winner = case["winner"] if len(case["ballots"]) % 3 else case["cands"][0]
-    contest = RContest(case.get("contest_name", "c"), list(case["cands"]), attr_winner, total_ballots(case), order=case["order_hint"] or [])
+    # names read from a file or a log are equal to the candidates' names without being the same objects
+    fresh = lambda v: v.encode().decode() if isinstance(v, str) else v
+    winner_arg = fresh(case["winner"])
+    contest = RContest(case.get("contest_name", "c"), list(case["cands"]), fresh(attr_winner), total_ballots(case),
+                       order=[fresh(c) for c in (case["order_hint"] or [])])
     f = si.difficulty(case["asn"])
     if earlier_search:
         # the same Contest object and CVR mapping were searched before with the other difficulty function
         other = sample_estimator.cp_estimate if case["asn"] == "bp_estimate" else sample_estimator.bp_estimate
-        compute_raire_assertions(contest, cvrs, case["winner"], other, False)
+        compute_raire_assertions(contest, cvrs, winner_arg, other, False)
     if agap:
-        return compute_raire_assertions(contest, cvrs, case["winner"], f, False, agap=agap), f
-    return compute_raire_assertions(contest, cvrs, case["winner"], f, False), f
+        return compute_raire_assertions(contest, cvrs, winner_arg, f, False, agap=agap), f
+    return compute_raire_assertions(contest, cvrs, winner_arg, f, False), f
 
 
 def total_ballots(case):
